@@ -138,9 +138,13 @@ def main():
                 json.dump(m, f, indent=1)
         det = {}
         for k, v in m.get("checks", {}).items():
+            if v.get("stale"):
+                continue
             c, sd = k.split("@seed")
             det.setdefault(c, []).append("%s" % ("+" if v["rc"] == 1 else ("?" if v["rc"] not in (0, 1) else "-")))
         dets = " ".join("%s[%s]" % (c, "".join(v)) for c, v in sorted(det.items()))
+        if m.get("neutralised"):
+            dets = "(not live on the current tree)"
         rows.append((sid, m.get("property"), m.get("change", ""), m.get("needs_to_manifest", ""), dets, m.get("strengthening", ""), m.get("confirmed")))
     print("| seeded change | breaks | what was changed | needs | quick checks (seed 0, 1: + caught, - silent) | strengthening it took |")
     print("|---|---|---|---|---|---|")
